@@ -139,7 +139,11 @@ func (r *Report) writerHistory(g *gen.G, cf *CasesFile, dir string) {
 				mySO = &native.SerializeOptions{}
 				opts = append(opts, writer.WithSerializeOptions(mySO))
 			}
+			opts = append(opts, writer.WithStoreRetriever(wrec), writer.WithStoreRetriever(nil))
 			nw := writer.New(opts...)
+			if nw.Storage != storage.StoreRetriever(wrec) {
+				r.Fail(Failure{What: "WithStoreRetriever did not install the given backend (or a nil argument replaced it)", Input: map[string]any{"history": desc}})
+			}
 			if (mySO != nil && nw.Options.SerializeOptions != mySO) || nw.Options.SerializeOptions == nil || nw.Options.RenderOptions == nil || nw.Options.StoreOptions == nil {
 				r.Fail(Failure{What: "a writer's options after construction are not the given value (or a nil argument replaced a default)", Input: map[string]any{"history": desc, "with": specs}})
 			}
